@@ -142,7 +142,8 @@ class Rel32JmpRelocation(Relocation):
     name = "rel32"
 
     def calc(self, sym_value, reloc_value):
-        offset = sym_value - reloc_value + self.addend
+        # The linker passes the symbol value plus the addend (S + A - P):
+        offset = sym_value - reloc_value
         return offset
 
 
